@@ -16,6 +16,8 @@ def run(ctx):
     # extending the scale multiplies by the exact power of ten
     nr = exact.rescale_primitives(rep, F, scale_only=False)
     rep.floor('rescale primitives (extension exact)', nr, 4)
+    nph = exact.power_helpers(rep, F)
+    rep.floor('power-of-ten helpers', nph, 3)
     rep.trust('num-bigint: BigInt::sign / magnitude / from_biguint are the exact sign-magnitude decomposition')
     if ctx.tier == 'thorough':
         from rules import witness
